@@ -43,10 +43,18 @@ const (
 	sWritePre
 	sWritePost
 	sJoin
-	nSites
+	sHookBase // + simhook site (guarded yield points inside /repo, build tag verif)
+	nSites    = sHookBase + 5
 )
 
-var siteNames = [nSites]string{"step", "tok<", "tok>", "stmt<", "stmt>", "expr<", "expr>", "op<", "op>", "write<", "write>", "join"}
+var siteNames = [nSites]string{"step", "tok<", "tok>", "stmt<", "stmt>", "expr<", "expr>", "op<", "op>", "write<", "write>", "join",
+	"hook:lexer.NextToken", "hook:parser.NextToken", "hook:CodeWriter.write", "hook:Compile.begin", "hook:Compile.end"}
+
+var (
+	hooksActive            bool
+	activeWorld            *World
+	hookPointsOutsideWorld int64
+)
 
 // Env is what a job sees of the world it runs in. Solo runs and the parallel
 // leg use nopEnv; the simulator implements it with its scheduler.
